@@ -297,3 +297,20 @@ impl<C: SymBridge> Lab<C> for SymLab<C> {
         self.notes.push(s.to_string());
     }
 }
+
+/// bridge for the Taproot suite compiled against the stub k256 (workspace B only)
+#[cfg(feature = "k256-bridge")]
+impl SymBridge for frost_secp256k1_tr::Secp256K1Sha256TR {
+    fn s_in(s: S) -> k256::Scalar {
+        k256::Scalar(s)
+    }
+    fn s_out(s: k256::Scalar) -> S {
+        s.0
+    }
+    fn e_in(e: E) -> k256::ProjectivePoint {
+        k256::ProjectivePoint(e)
+    }
+    fn e_out(e: k256::ProjectivePoint) -> E {
+        e.0
+    }
+}
